@@ -13,6 +13,8 @@ Correspondence (model = lean/SkyllhModel/Model/Minimizer.lean through Driver/C11
     implementations through `LLHRatio.maximize` (negation of value and derivatives).
 Every implementation additionally runs on 2/3-parameter box-constrained quadratics with the optimum on a bound of the first / middle /
 last parameter (exact reference by active-set enumeration); the COBYLA constraint closures are compared with the model.
+Histories: one Minimizer/implementation object minimises the same function object several times with new arguments (fresh-vs-used),
+random get_f/get_grads sequences on the real FuncWithGradsFunctor vs the model.
 Property oracles (implementation only): bounds, fmin == func(xmin), flag semantics, exception instead of a silent
 non-converged result, stationary point within tolerance / active bound with outward slope against a bisection
 reference, llh(x*) >= llh(x0); wrapper contract for L-BFGS-B, generic scipy methods and iminuit.
@@ -1906,7 +1908,7 @@ MANIFEST = dict(
           'step <= ns_tol and slope <= threshold, flags -2/-1 only at that bound with the Newton step pointing outward; NR+scan = '
           'first best NR result over the scan values (strictly better than every earlier one), niter summed, linspace inside the bounds; Minimizer.minimize over an arbitrary sequence of attempts raises unless the '
           'last attempt converged, returns in-bounds values, re-evaluates after clipping, never clips an in-bounds (NR) result; '
-          'maximize negates; the COBYLA inequality constraints built from the bounds hold iff every x[i] is within its own bounds. Over ordered fields / the reals: slope sign at a forced bound, and for a convex objective the forced '
+          'maximize negates; the cached function-with-gradients functor is transparent and no state survives a minimize call; the COBYLA inequality constraints built from the bounds hold iff every x[i] is within its own bounds. Over ordered fields / the reals: slope sign at a forced bound, and for a convex objective the forced '
           'bound is the exact optimum, a flag-0 point is within |slope|*(hi-lo) of it (so never below the initial point up to that). '
           'The executable model is driven with the recorded objective triples of the real NR1dNsMinimizerImpl / '
           'NRNsScan2dMinimizerImpl / Minimizer / LLHRatio.maximize and compared bit-exactly (then decisions exact, values 1e-9).'),
